@@ -18,6 +18,12 @@ import (
 	"unsafe"
 )
 
+// MapShrink, if set, gives an emptied map the shape of a freshly made one (the
+// worker sets it to a function of its runtime overlay, see mkoverlay.sh): a
+// package-level map that grew in an earlier run would otherwise keep its
+// larger bucket array, and with it another iteration order, in the next.
+var MapShrink func(m unsafe.Pointer)
+
 // Var is one package-level variable: its name and its address.
 type Var struct {
 	Name string
@@ -233,6 +239,9 @@ func snapMap(m reflect.Value, seen map[seenKey]bool, depth int) func() {
 	}
 	return func() {
 		m.Clear()
+		if MapShrink != nil {
+			MapShrink(m.UnsafePointer())
+		}
 		for _, e := range entries {
 			e.inner()
 			m.SetMapIndex(e.k, e.v)
